@@ -126,6 +126,18 @@ func (w *world) gen(r *sim.Rand) *sim.Step {
 	case 2:
 		return &sim.Step{Op: "adv", A: []int64{int64([]int{1, 50, 900, 2000, 4000, 13000, 130000}[r.Intn(7)])}}
 	case 3:
+		if w.prop == "C09" && len(w.lastConsOrder) > 0 && r.Chance(0.5) {
+			// a post-consensus message of a signer whose consensus message was accepted last (same validator, role):
+			// other traffic of a signer must not disturb its consensus record
+			h := w.lastConsOrder[len(w.lastConsOrder)-1-r.Intn(min(len(w.lastConsOrder), 4))]
+			ri := 0
+			for i, ro := range roles {
+				if ro == h.role {
+					ri = i
+				}
+			}
+			return &sim.Step{Op: "partial", A: []int64{int64(h.vi), int64(ri), int64(h.from) - 1, 1}}
+		}
 		return &sim.Step{Op: "partial", A: []int64{int64(r.Intn(4)), int64(r.Intn(len(roles))), int64(r.Intn(13)), int64(r.Intn(2))}}
 	case 4:
 		return &sim.Step{Op: "timeout", A: []int64{int64(r.Intn(4)), int64(r.Intn(nConsensusRoles)), int64(r.Weighted(2, 1) * r.Intn(1<<13))}}
